@@ -1,4 +1,106 @@
-(* placeholder until the proofs are integrated *)
-From LLTD Require Import BufProofs.
-Theorem C08_placeholder : True. Proof. exact I. Qed.
-Print Assumptions C08_placeholder.
+(* C08: large properties retrievable byte-exactly by offset.
+   Statements only: each theorem restates the full type of a lemma proved in coq/proofs and is closed by
+   `exact`; Print Assumptions beneath.  Regenerate with bin/genprops.py after a lemma changes. *)
+From LLTD Require Import BlockFun PropsLarge.
+
+Theorem C08_response :
+  forall (ctx : N) (c : pcfg) (g : gcfg) (mtu : N) (s : ist) (buf : list N) (h : hdr),
+  parse_hdr buf = Some h ->
+  is_discovery_tos (h_tos h) = true ->
+  h_opc h = opcode_queryLargeTlv ->
+  h_seq h <> 0%N ->
+  snd (f_step ctx c g mtu s buf) =
+  [tx ctx
+  (qlt_frame c h (h_seq h) (fst (chunk_spec mtu (data_for g s (h_b0 h)) (h_w1 h)))
+  (snd (chunk_spec mtu (data_for g s (h_b0 h)) (h_w1 h))))].
+Proof. exact C08_step. Qed.
+Print Assumptions C08_response.
+
+Theorem C08_chunk_length :
+  forall (mtu : N) (data : list N) (off : N),
+  N.of_nat (length (fst (chunk_spec mtu data off))) =
+  N.min (payload_max mtu) (N.of_nat (length data) - off).
+Proof. exact C08_chunk_length. Qed.
+Print Assumptions C08_chunk_length.
+
+Theorem C08_fits_mtu :
+  forall (c : pcfg) (mtu : N),
+  (576 <= mtu <= 9216)%N ->
+  forall (h : hdr) (seq : N) (data : list N) (off : N) (more : bool),
+  length (qlt_frame c h seq (fst (chunk_spec mtu data off)) more) =
+  34 + length (fst (chunk_spec mtu data off)) /\
+  length (qlt_frame c h seq (fst (chunk_spec mtu data off)) more) <= o mtu.
+Proof. exact C08_fits. Qed.
+Print Assumptions C08_fits_mtu.
+
+Theorem C08_seq_zero_ignored :
+  forall (ctx : N) (c : pcfg) (g : gcfg) (mtu : N) (s : ist) (buf : list N) (h : hdr),
+  parse_hdr buf = Some h ->
+  h_opc h = opcode_queryLargeTlv -> h_seq h = 0%N -> f_step ctx c g mtu s buf = (s, []).
+Proof. exact C08_seq0. Qed.
+Print Assumptions C08_seq_zero_ignored.
+
+Theorem C08_unknown_or_past_end :
+  forall (mtu : N) (data : list N) (off : N),
+  (N.of_nat (length data) <= off)%N -> chunk_spec mtu data off = ([], false).
+Proof. exact C08_past_end. Qed.
+Print Assumptions C08_unknown_or_past_end.
+
+Theorem C08_wire_decoding :
+  forall (c : pcfg) (h : hdr) (seq : N) (chunk : list N) (more : bool),
+  (seq < 65536)%N ->
+  (N.of_nat (length chunk) < 16384)%N ->
+  decode_qlt (qlt_frame c h seq chunk more) = Some (seq, chunk, more).
+Proof. exact decode_qlt_frame. Qed.
+Print Assumptions C08_wire_decoding.
+
+Theorem C08_reassembly :
+  forall mtu : N,
+  (576 <= mtu <= 9216)%N -> forall data : list N, fetch mtu (S (length data)) data 0 = Some data.
+Proof. exact C08_reassemble. Qed.
+Print Assumptions C08_reassembly.
+
+Theorem C08_mapper_loop_end_to_end :
+  forall (ctx : N) (c : pcfg) (g : gcfg) (mtu : N),
+  (576 <= mtu <= 9216)%N ->
+  forall (s : ist) (ty : N) (esrc edst rsrc rdst : mac) (seq : N),
+  (0 < seq < 65536)%N ->
+  (N.of_nat (length (data_for g s ty)) <= 65535)%N ->
+  mapper_fetch ctx c g mtu (S (length (data_for g s ty))) (qlt_request esrc edst rsrc rdst seq ty) s 0 =
+  Some (data_for g s ty).
+Proof. exact C08_fetch_wire. Qed.
+Print Assumptions C08_mapper_loop_end_to_end.
+
+Theorem C08_offsets_fit :
+  forall (mtu : N) (data : list N) (fuel : nat),
+  (N.of_nat (length data) <= 65535)%N ->
+  Forall (fun x : N => (x < 65536)%N) (fetch_offs mtu fuel data 0).
+Proof. exact C08_offsets_16bit. Qed.
+Print Assumptions C08_offsets_fit.
+
+Theorem C08_icon_cached :
+  forall (ctx : N) (c : pcfg) (g : gcfg) (mtu : N) (s : ist) (buf : list N) (h : hdr) (d : list N),
+  parse_hdr buf = Some h ->
+  is_discovery_tos (h_tos h) = true ->
+  h_opc h = opcode_queryLargeTlv ->
+  h_seq h <> 0%N ->
+  h_b0 h = tlv_iconImage ->
+  g_icon g = Some d ->
+  icon (fst (f_step ctx c g mtu s buf)) = Some match icon s with
+  | Some d0 => d0
+  | None => d
+  end.
+Proof. exact C08_icon_cached. Qed.
+Print Assumptions C08_icon_cached.
+
+Theorem C08_hardware_id :
+  forall g : gcfg,
+  let v := hwid_value g in
+  let sc := hwid_scratch g in
+  v = firstn (length v) sc /\
+  Nat.even (length v) = true /\
+  length v <= 64 /\
+  (forall k : nat, 2 * k + 1 < length v -> ~ (nth (2 * k) sc 0%N = 0%N /\ nth (2 * k + 1) sc 0%N = 0%N)) /\
+  (length v < 64 -> nth (length v) sc 0%N = 0%N /\ nth (S (length v)) sc 0%N = 0%N).
+Proof. exact C08_hwid_prefix. Qed.
+Print Assumptions C08_hardware_id.
